@@ -11,19 +11,21 @@ from gv.model import dbutil
 ID = "C20"
 RULE = (
     "Real forked processes under a controller that lets exactly one run between scheduling points (job start; in the shared temp "
-    "directory: os.open incl. exclusive create, open, unlink/remove, rename, stat/lstat); all are fed the same temp-name sequence so "
-    "name collisions are forced; shards fix the first two scheduling decisions. Group 'imports2': 13 (quick 11) two-process create_db "
-    "job sets, ALL interleavings; job kinds: path, from_string, a duplicate-ID import that must fail, GTF with inference off, CDS-only "
-    "GTF, force=True over an existing file, file:// URL, verbose='debug', and an import writing '<the forced job's output>.2' in the "
-    "same directory; otherwise outputs are same-named files in separate directories. 'imports2torn': two imports of the identical "
-    "string with the first write into a shared-directory file split in two, within 2 (quick) / 3 (thorough) pre-emptions. 'imports3': 3 "
-    "three-process sets within 1 / 2 pre-emptions. 'imports1': one solitary 13220-line import (12000 second-level relations). Solitary "
-    "reference runs are made in forked children before the controller imports anything; the controller then runs a solitary import in "
-    "the shared directory, which must leave nothing. Each output is compared canonically with a solitary run, every process must end as "
-    "expected, and the shared directory must end empty. 'readers': 2 and 3 concurrent readers of one finished database with additional "
-    "points at connect, every statement, commit and every row fetch, within 1 / 3 (2 readers) and 1 / 2 (3 readers) pre-emptions; every "
-    "reader must succeed and see the full content. Non-trivial = the schedule has more context switches than processes minus one (the "
-    "solitary import always counts)."
+    "directory: os.open incl. exclusive create, open, unlink/remove, rename, stat/lstat); all get the same temp-name sequence, forcing "
+    "name collisions; shards fix the first two scheduling decisions. Group 'imports2': 14 (quick 11) two-process create_db job sets, "
+    "ALL interleavings; job kinds: path, from_string, a duplicate-ID import that must fail, GTF with both or only transcript inference "
+    "off, CDS-only GTF, force=True over an existing file, file:// URL, verbose='debug', and an import writing '<the forced job's "
+    "output>.2' in the same directory; otherwise outputs are same-named files in separate directories. 'imports2torn': two imports of "
+    "the identical string with the first write into a shared-directory file split in two, within 2 (quick) / 3 (thorough) pre-emptions. "
+    "'imports3': 3 three-process sets within 1 / 2 pre-emptions. 'imports1': one solitary 13220-line import (12000 second-level "
+    "relations). 'hashseeds' (1 execution): one import merging duplicates (force_merge_fields source), run in fresh interpreters under "
+    "6 PYTHONHASHSEED values, must give one canonical database (attribute values as sets). Solitary reference runs are made in forked "
+    "children before the controller imports anything (one that fails is a finding); the controller then runs a solitary import in the "
+    "shared directory, which must leave nothing. Each output is compared canonically with a solitary run, every process must end as "
+    "expected, and the shared directory must end empty. 'readers': 2 and 3 concurrent readers of one finished database with points also "
+    "at connect, every statement, commit and row fetch, within 1 / 3 (2 readers) and 1 / 2 (3 readers) pre-emptions; every reader must "
+    "succeed and see the full content. Non-trivial = the schedule has more context switches than processes minus one (the solitary "
+    "import and the hash-seed run always count)."
 )
 ASSUMPTIONS = [
     "for the pair importing the same text as a string, the first write into a file in the shared directory is split in two with a "
@@ -31,6 +33,7 @@ ASSUMPTIONS = [
     "exactly one process runs between scheduling points (controller-serialised); atomicity of open(O_EXCL), unlink and of sqlite's file locking is trusted",
     "2 and 3 processes; more processes than cores and truly simultaneous system calls are not explored",
     "deviation bound = number of non-canonical picks (pre-emptions, plus picking a non-lowest process after an exit)",
+    "separately started processes may differ in the interpreter's string-hash seed: six fixed seeds are enumerated (part 'hashseeds'); the order of merged attribute values is compared as sets there",
 ]
 
 GFF_A = ["c1\ts\tgene\t1\t100\t.\t+\t.\tID=g1", "c1\ts\tmRNA\t1\t100\t.\t+\t.\tID=m1;Parent=g1",
